@@ -4,6 +4,18 @@ package main
 // event histories {submit, receive, receive again, peer up (with a send-outcome script), peer down,
 // pending tick, clean tick, orderly restart}; after every event the per-peer send log and the store
 // status (known / pending / sent list) of every bundle the harness handed in are recorded.
+//
+// A bundle can be given extension blocks of types the node does not know next to the known ones (hop
+// count, bundle age, previous node), each with any of the block processing flags and in any array order
+// (scfB.Blk); the block array as handed in is part of the bundle's description.
+//
+// Histories beginning with (sched m) run under schedule control, histories beginning with (fault n) with
+// one failing part-file write: see scf_sched.go.  For an event of such a history in which a send failed
+// (or a schedule / fault point was reached) the observation is followed by a record
+//   (atreturn now ((bundle peer) ..) (points ..) () status 0)
+// = the failure reports that were still held back when forward went on / the handler returned, the points
+// reached, and the store status at the moment the handler returned; the event's own record then has the
+// status after everything held back was let go and had run.
 
 import (
 	"bytes"
@@ -13,6 +25,7 @@ import (
 	"sort"
 	"strings"
 	"sync"
+	"sync/atomic"
 	"time"
 
 	log "github.com/sirupsen/logrus"
@@ -60,7 +73,22 @@ func scfConf(alg string) routing.RoutingConf {
 }
 
 // bundle specification (input)
-type scfB struct{ TsMode, Group, Dst, Prev, Hop, Del, Local, Dead int }
+type scfB struct {
+	TsMode, Group, Dst, Prev, Hop, Del, Local, Dead int
+	// Blk: the extension blocks whose position and block processing flags are prescribed, in array order
+	// (kind, flags); kind 0 = a further block of a type this node does not know, 1 = the hop count block,
+	// 2 = the bundle age block, 3 = the previous node block (each only if the bundle has one), 4 = the
+	// payload block (always last; flags only). Unlisted extension blocks follow the listed ones.
+	Blk [][2]int
+}
+
+const (
+	scfBkUnknown = 0
+	scfBkHop     = 1
+	scfBkAge     = 2
+	scfBkPrev    = 3
+	scfBkPayload = 4
+)
 
 // event specification (input)
 type scfEv struct {
@@ -76,12 +104,26 @@ func (b scfB) s() []S {
 	return []S{I(b.TsMode), I(b.Group), I(b.Dst), I(b.Prev), I(b.Hop), I(b.Del), I(b.Local), I(b.Dead)}
 }
 
+// the optional trailing element of a sub / rcv event: (blk (kind flags) ...)
+func (b scfB) blkS() []S {
+	if len(b.Blk) == 0 {
+		return nil
+	}
+	l := []S{Sym("blk")}
+	for _, e := range b.Blk {
+		l = append(l, L(I(e[0]), I(e[1])))
+	}
+	return []S{LL(l)}
+}
+
 func (e scfEv) S() S {
 	switch e.Kind {
 	case "sub":
-		return LL(append([]S{Sym("sub")}, e.B.s()...))
+		return LL(append(append([]S{Sym("sub")}, e.B.s()...), e.B.blkS()...))
 	case "rcv":
-		return LL(append(append([]S{Sym("rcv")}, e.B.s()...), I(e.From)))
+		return LL(append(append(append([]S{Sym("rcv")}, e.B.s()...), I(e.From)), e.B.blkS()...))
+	case "sched", "fault":
+		return L(Sym(e.Kind), I(e.Mode))
 	case "dup":
 		return L(Sym("dup"), I(e.K), I(e.From))
 	case "up":
@@ -96,15 +138,24 @@ func scfParseEv(s S) scfEv {
 	l := s.(sList)
 	k := atomSym(l[0])
 	e := scfEv{Kind: k}
-	rb := func() {
-		e.B = scfB{atomI(l[1]), atomI(l[2]), atomI(l[3]), atomI(l[4]), atomI(l[5]), atomI(l[6]), atomI(l[7]), atomI(l[8])}
+	rb := func(opt int) {
+		e.B = scfB{TsMode: atomI(l[1]), Group: atomI(l[2]), Dst: atomI(l[3]), Prev: atomI(l[4]), Hop: atomI(l[5]),
+			Del: atomI(l[6]), Local: atomI(l[7]), Dead: atomI(l[8])}
+		if len(l) > opt {
+			for _, x := range l[opt].(sList)[1:] {
+				xl := x.(sList)
+				e.B.Blk = append(e.B.Blk, [2]int{atomI(xl[0]), atomI(xl[1])})
+			}
+		}
 	}
 	switch k {
 	case "sub":
-		rb()
+		rb(9)
 	case "rcv":
-		rb()
+		rb(10)
 		e.From = atomI(l[9])
+	case "sched", "fault":
+		e.Mode = atomI(l[1])
 	case "dup":
 		e.K, e.From = atomI(l[1]), atomI(l[2])
 	case "up":
@@ -127,6 +178,7 @@ type scfTB struct {
 	age  int64 // -1 = no age block
 	hl   int   // -1 = no hop count block
 	hc   int
+	blks []S // the canonical blocks as handed in, in array order: (type known to this node, flags)
 }
 
 func scfTag(idx int) []byte { return []byte(fmt.Sprintf("scf-%d", idx)) }
@@ -153,6 +205,9 @@ type scfRunner struct {
 	att     map[[2]int]int
 	attMu   sync.Mutex
 	salt    uint64
+	sched   *scfSched       // schedule control / fault injection (histories starting with (sched m) / (fault n))
+	clas    map[int]*scfCLA // the registered senders
+	nfailed int32           // failed sends since the last quiescence check
 	// rendezvous of the sends of one forwarding attempt
 	rvMu   sync.Mutex
 	rvCh   chan struct{}
@@ -187,6 +242,24 @@ func (h *scfRunner) rendezvous() {
 
 // the outcome script of a peer: a pure function of (mode, peer, bundle, attempt number)
 func (h *scfRunner) fails(peer, mode int, rec *SendRec) bool {
+	f := h.fails0(peer, mode, rec)
+	if f {
+		atomic.AddInt32(&h.nfailed, 1)
+		if idx := scfTagOf(&rec.Bndl); idx >= 0 && h.sched != nil {
+			h.sched.noteFailed(peer, idx, rec)
+		}
+	}
+	return f
+}
+
+// before the Core is closed: no failure report may still be running (see scfQuiesce)
+func (h *scfRunner) quiesce() {
+	if atomic.SwapInt32(&h.nfailed, 0) > 0 {
+		scfQuiesce()
+	}
+}
+
+func (h *scfRunner) fails0(peer, mode int, rec *SendRec) bool {
 	idx := scfTagOf(&rec.Bndl)
 	h.attMu.Lock()
 	key := [2]int{peer, idx}
@@ -257,9 +330,19 @@ func (h *scfRunner) mkBundleE(spec scfB, idx int, received bool, epoch int, seq 
 	if spec.Del == 1 {
 		bl = bl.Canonical(bpv7.NewGenericExtensionBlock([]byte{1, 2, 3}, scfUnknownBT), bpv7.DeleteBundle)
 	}
+	nu := 0
+	for _, e := range spec.Blk {
+		if e[0] == scfBkUnknown {
+			nu++
+			bl = bl.Canonical(bpv7.NewGenericExtensionBlock([]byte{byte(nu)}, uint64(scfUnknownBT+nu)), bpv7.BlockControlFlags(e[1]))
+		}
+	}
 	b, err := bl.Build()
 	if err != nil {
 		panic(err)
+	}
+	if len(spec.Blk) > 0 {
+		scfArrange(&b, spec.Blk)
 	}
 	if spec.Dead == 1 {
 		if spec.TsMode == 0 {
@@ -290,7 +373,67 @@ func (h *scfRunner) mkBundleE(spec scfB, idx int, received bool, epoch int, seq 
 		}
 	}
 	t.b = b
+	// (recorded now: the Core works on the block array of the bundle it is handed, in place)
+	for _, cb := range b.CanonicalBlocks {
+		t.blks = append(t.blks, L(B(bpv7.GetExtensionBlockManager().IsKnown(cb.TypeCode())), U(uint64(cb.BlockControlFlags))))
+	}
 	return t
+}
+
+// scfArrange puts the extension blocks into the prescribed array order (the block array is kept sorted by
+// block number, the payload block - number 1 - last: the order is the order of the numbers) and sets the
+// prescribed block processing flags.
+func scfArrange(b *bpv7.Bundle, blk [][2]int) {
+	find := func(tc uint64) int {
+		for i := range b.CanonicalBlocks {
+			if b.CanonicalBlocks[i].TypeCode() == tc {
+				return i
+			}
+		}
+		return -1
+	}
+	var order []int
+	used := map[int]bool{}
+	nu := 0
+	for _, e := range blk {
+		var tc uint64
+		switch e[0] {
+		case scfBkUnknown:
+			nu++
+			tc = uint64(scfUnknownBT + nu)
+		case scfBkHop:
+			tc = bpv7.ExtBlockTypeHopCountBlock
+		case scfBkAge:
+			tc = bpv7.ExtBlockTypeBundleAgeBlock
+		case scfBkPrev:
+			tc = bpv7.ExtBlockTypePreviousNodeBlock
+		case scfBkPayload:
+			tc = bpv7.ExtBlockTypePayloadBlock
+		}
+		i := find(tc)
+		if i < 0 || used[i] {
+			continue
+		}
+		used[i] = true
+		b.CanonicalBlocks[i].BlockControlFlags = bpv7.BlockControlFlags(e[1])
+		if e[0] != scfBkPayload {
+			order = append(order, i)
+		}
+	}
+	pl := find(bpv7.ExtBlockTypePayloadBlock)
+	for i := range b.CanonicalBlocks {
+		if !used[i] && i != pl {
+			order = append(order, i)
+		}
+	}
+	var nb []bpv7.CanonicalBlock
+	for k, i := range order {
+		cb := b.CanonicalBlocks[i]
+		cb.BlockNumber = uint64(2 + k)
+		nb = append(nb, cb)
+	}
+	nb = append(nb, b.CanonicalBlocks[pl])
+	b.CanonicalBlocks = nb
 }
 
 func (t *scfTB) desc() S {
@@ -303,7 +446,7 @@ func (t *scfTB) desc() S {
 	if t.hl >= 0 {
 		hop = L(I(t.hl), I(t.hc))
 	}
-	return L(I(t.idx), I(t.spec.Local), I(t.spec.Dst), I(prev), U(t.ts), U(t.life), age, hop, I(t.spec.Del), I(t.spec.Dead))
+	return L(I(t.idx), I(t.spec.Local), I(t.spec.Dst), I(prev), U(t.ts), U(t.life), age, hop, I(t.spec.Del), I(t.spec.Dead), LL(t.blks))
 }
 
 func (h *scfRunner) sentKey() string {
@@ -367,9 +510,16 @@ func scfNewNode(conf routing.RoutingConf) *Node {
 
 // run one history; returns the observation list and whether it took suspiciously long
 func scfRun(alg string, evs []scfEv, salt uint64) (S, bool) {
-	h := &scfRunner{alg: alg, up: map[int]int{}, att: map[[2]int]int{}, salt: salt}
+	h := &scfRunner{alg: alg, up: map[int]int{}, att: map[[2]int]int{}, salt: salt, clas: map[int]*scfCLA{}}
 	h.n = scfNewNode(scfConf(alg))
-	defer func() { h.n.Destroy() }()
+	defer func() {
+		if h.sched != nil {
+			h.sched.faultEnd()
+			scfActive.Store((*scfSched)(nil))
+		}
+		h.quiesce()
+		h.n.Destroy()
+	}()
 	h.prime()
 	h.t0 = uint64(bpv7.DtnTimeNow())
 	var obs []S
@@ -377,7 +527,27 @@ func scfRun(alg string, evs []scfEv, salt uint64) (S, bool) {
 		now := uint64(bpv7.DtnTimeNow())
 		before := h.n.LastSendN()
 		var head []S
+		if h.sched != nil {
+			h.sched.beginEvent()
+		}
 		switch e.Kind {
+		case "sched", "fault":
+			// the first events of a history (run one at a time, see scfJobs.run): what follows runs under
+			// schedule control / with a failing part-file write
+			if h.sched == nil {
+				h.sched = &scfSched{h: h}
+				h.sched.beginEvent()
+				scfInstallHook()
+				scfActive.Store(h.sched)
+			}
+			if e.Kind == "sched" {
+				h.sched.mode = e.Mode
+			} else {
+				h.sched.mu.Lock()
+				h.sched.faultIn = e.Mode
+				h.sched.mu.Unlock()
+			}
+			head = []S{Sym("nop"), U(now)}
 		case "sub":
 			t := h.mkBundle(e.B, len(h.tracked), false)
 			h.n.Event++
@@ -409,11 +579,13 @@ func scfRun(alg string, evs []scfEv, salt uint64) (S, bool) {
 			}
 			peer, mode := e.Peer, e.Mode
 			h.up[peer] = mode
-			m := &MockCLA{Name: fmt.Sprintf("p%d", peer), Peer: MustEID(scfNode(peer)), node: h.n,
+			inner := &MockCLA{Name: fmt.Sprintf("p%d", peer), Peer: MustEID(scfNode(peer)), node: h.n,
 				ch:    make(chan cla.ConvergenceStatus, 16),
 				Fail:  func(rec *SendRec) bool { return h.fails(peer, mode, rec) },
 				Block: func(rec *SendRec) { h.rendezvous() }}
-			h.n.Peers[m.Name] = m
+			m := &scfCLA{MockCLA: inner, h: h, peer: peer}
+			h.n.Peers[inner.Name] = inner
+			h.clas[peer] = m
 			h.n.Event++
 			h.n.Core.RegisterConvergable(m)
 			h.n.Core.VerifPeerAppeared(m)
@@ -424,7 +596,12 @@ func scfRun(alg string, evs []scfEv, salt uint64) (S, bool) {
 				break
 			}
 			delete(h.up, e.Peer)
-			h.n.PeerDown(fmt.Sprintf("p%d", e.Peer))
+			m := h.clas[e.Peer]
+			delete(h.clas, e.Peer)
+			h.n.Event++
+			h.n.Core.VerifPeerDisappeared(m)
+			h.n.Core.VerifClaManager().Unregister(m)
+			delete(h.n.Peers, m.Name)
 			head = []S{Sym("down"), U(now), I(e.Peer)}
 		case "tickp":
 			h.n.TickPending()
@@ -433,13 +610,54 @@ func scfRun(alg string, evs []scfEv, salt uint64) (S, bool) {
 			h.n.TickClean()
 			head = []S{Sym("tickc"), U(now)}
 		case "restart":
+			h.quiesce()
 			h.n.Restart()
 			h.up = map[int]int{}
+			h.clas = map[int]*scfCLA{}
 			h.epoch++
 			h.prime()
 			head = []S{Sym("restart"), U(now)}
 		default:
 			panic("scf: unknown event " + e.Kind)
+		}
+		// The quiescence rule.  When a send failed in this event (or the history runs under schedule
+		// control): the store as the handler left it; then whatever was held back is let go, the harness
+		// waits until none of the sender goroutines of this Core is left, and looks at the store again.
+		// The event's record carries the second, settled status; when the first one differs from it, or
+		// something was held back, an (atreturn ..) record follows.
+		var atReturn []S
+		var settled S
+		{
+			var esc []*scfReport
+			var pts []string
+			any := false
+			if h.sched != nil {
+				esc, pts, any = h.sched.handlerReturned()
+			}
+			if any || atomic.LoadInt32(&h.nfailed) > 0 {
+				st0 := h.status()
+				if h.sched != nil {
+					h.sched.release()
+				}
+				atomic.StoreInt32(&h.nfailed, 0)
+				scfQuiesce()
+				settled = h.status()
+				if any || SString(st0) != SString(settled) {
+					var el, pl []S
+					for _, r := range esc {
+						el = append(el, L(I(r.idx), I(r.peer)))
+					}
+					for _, p := range pts {
+						pl = append(pl, Sym(p))
+					}
+					atReturn = []S{Sym("atreturn"), U(now), LL(el), LL(pl), LL(nil), st0, I(0)}
+				}
+			} else if h.sched != nil {
+				h.sched.release()
+			}
+		}
+		if settled == nil {
+			settled = h.status()
 		}
 		// sends of this event, in a canonical order
 		type srec struct {
@@ -469,7 +687,10 @@ func scfRun(alg string, evs []scfEv, salt uint64) (S, bool) {
 		for _, s := range ss {
 			sl = append(sl, L(I(s.p), I(s.idx), B(s.ok)))
 		}
-		obs = append(obs, LL(append(head, LL(sl), h.status(), I(other))))
+		obs = append(obs, LL(append(head, LL(sl), settled, I(other))))
+		if len(atReturn) > 0 {
+			obs = append(obs, LL(atReturn))
+		}
 	}
 	slow := uint64(bpv7.DtnTimeNow())-h.t0 > 20000
 	return LL(obs), slow
@@ -493,6 +714,7 @@ func (j *scfJobs) add(alg string, evs []scfEv, salt uint64) {
 // cases in the order of the job list
 func (j *scfJobs) run(o *Out) {
 	const workers = 6
+	tStart := time.Now()
 	ch := make(chan *scfJob)
 	var wg sync.WaitGroup
 	for w := 0; w < workers; w++ {
@@ -504,11 +726,33 @@ func (j *scfJobs) run(o *Out) {
 			}
 		}()
 	}
+	controlled := func(jb *scfJob) bool {
+		return len(jb.evs) > 0 && (jb.evs[0].Kind == "sched" || jb.evs[0].Kind == "fault")
+	}
 	for _, jb := range j.l {
-		ch <- jb
+		if !controlled(jb) {
+			ch <- jb
+		}
 	}
 	close(ch)
 	wg.Wait()
+	tPar := time.Now()
+	defer func() {
+		if os.Getenv("SCF_TIMING") != "" {
+			fmt.Fprintf(os.Stderr, "scf: parallel part %v, controlled part %v; %d quiescence checks, %v\n", tPar.Sub(tStart), time.Since(tPar),
+				atomic.LoadInt64(&scfQuiesceN), time.Duration(atomic.LoadInt64(&scfQuiesceNs)))
+		}
+	}()
+	// histories under schedule control / fault injection: one at a time (the schedule points come from
+	// the process-wide logger), with the Core's debug messages switched on
+	lvl := log.GetLevel()
+	for _, jb := range j.l {
+		if controlled(jb) {
+			log.SetLevel(log.DebugLevel)
+			jb.obs, jb.slow = scfRun(jb.alg, jb.evs, jb.salt)
+		}
+	}
+	log.SetLevel(lvl)
 	for _, jb := range j.l {
 		if jb.slow {
 			o.Case("skipped", Sym("slow"))
@@ -575,6 +819,145 @@ func scfRandB(r *Rng) scfB {
 	return b
 }
 
+// the 16 combinations of the four block processing flags
+func scfFlags(k int) int {
+	f := 0
+	for i, bit := range []int{int(bpv7.ReplicateBlock), int(bpv7.StatusReportBlock), int(bpv7.DeleteBundle), int(bpv7.RemoveBlock)} {
+		if k>>uint(i)&1 == 1 {
+			f |= bit
+		}
+	}
+	return f
+}
+
+// 1..4 blocks with prescribed position and flags for a bundle
+func scfRandBlk(r *Rng, b *scfB) {
+	n := 1 + r.Intn(4)
+	usedK := map[int]bool{}
+	for i := 0; i < n; i++ {
+		kind := scfBkUnknown
+		if r.Intn(5) >= 2 {
+			kind = 1 + r.Intn(4)
+		}
+		if kind != scfBkUnknown {
+			if usedK[kind] {
+				continue
+			}
+			usedK[kind] = true
+		}
+		fl := scfFlags(r.Intn(16))
+		if kind == scfBkUnknown && r.Intn(3) != 0 {
+			fl &^= int(bpv7.DeleteBundle) // most bundles are to be kept
+		}
+		if kind == scfBkHop && b.Hop == 0 {
+			b.Hop = 1
+		}
+		b.Blk = append(b.Blk, [2]int{kind, fl})
+	}
+}
+
+// Bounded-exhaustive block arrays: every pair of adjacent blocks (a block of an unknown or a known type
+// with each of the 16 flag combinations, directly followed by an unknown, a known or the payload block
+// with each of the 16), 24 received bundles per history, then the destination of half of them appears,
+// a retry, a restart, another peer.
+func scfBlockHists(thin int, add func(alg string, h []scfEv)) {
+	var bs []scfB
+	k := 0
+	for a := 0; a < 32; a++ {
+		for c := 0; c < 48; c++ {
+			k++
+			if thin >= 0 && a >= 16 && (a+c/16+c)%2 != thin {
+				continue // quick tier: half of the pairs that begin with a block of a known type
+			}
+			b := scfB{TsMode: k % 2, Group: 1, Dst: scfNoNode, Prev: 2, Hop: 1}
+			if k%4 < 2 {
+				b.Dst = 1
+			}
+			// the known block types take turns (the age block exists in a clock-less bundle only)
+			known := []int{scfBkHop, scfBkPrev}
+			if b.TsMode == 0 {
+				known = append(known, scfBkAge)
+			}
+			ka := scfBkUnknown
+			if a >= 16 {
+				ka = known[k%len(known)]
+			}
+			var kc int
+			switch c / 16 {
+			case 0:
+				kc = scfBkUnknown
+			case 1:
+				kc = known[(k+1)%len(known)]
+				if kc == ka {
+					kc = known[(k+2)%len(known)]
+				}
+			default:
+				kc = scfBkPayload
+			}
+			b.Blk = [][2]int{{ka, scfFlags(a % 16)}, {kc, scfFlags(c % 16)}}
+			bs = append(bs, b)
+		}
+	}
+	for i, n := 0, 0; i < len(bs); i, n = i+24, n+1 {
+		var h []scfEv
+		for j := i; j < i+24 && j < len(bs); j++ {
+			h = append(h, scfEv{Kind: "rcv", B: bs[j], From: 2})
+		}
+		h = append(h, scfEv{Kind: "up", Peer: 1, Mode: 0}, scfEv{Kind: "tickp"}, scfEv{Kind: "restart"},
+			scfEv{Kind: "up", Peer: 3, Mode: 2}, scfEv{Kind: "tickp"})
+		add(scfAlgs[n%len(scfAlgs)], h)
+	}
+}
+
+// Histories under schedule control (see scf_sched.go): one to three peers of which at least one fails, a
+// bundle for a far node submitted or received, retries, a further peer.
+func scfSchedHist(r *Rng, mode int) []scfEv {
+	h := []scfEv{{Kind: "sched", Mode: mode}}
+	ps := r.Perm(4)
+	np := 1 + r.Intn(2)
+	for i := 0; i < np; i++ {
+		m := 1
+		if i > 0 {
+			m = []int{1, 2, 0}[r.Intn(3)]
+		}
+		h = append(h, scfEv{Kind: "up", Peer: 1 + ps[i], Mode: m})
+	}
+	b := scfB{TsMode: r.Intn(2), Group: 1, Dst: scfNoNode, Local: 1}
+	if r.Bool() {
+		h = append(h, scfEv{Kind: "sub", B: b})
+	} else {
+		b.Local = 0
+		b.Prev = 1 + ps[3]
+		h = append(h, scfEv{Kind: "rcv", B: b, From: 1 + ps[3]})
+	}
+	h = append(h, scfEv{Kind: "tickp"})
+	if r.Bool() {
+		h = append(h, scfEv{Kind: "up", Peer: 1 + ps[2], Mode: 2}, scfEv{Kind: "tickp"})
+	}
+	return h
+}
+
+// One failing part-file write (see scf_sched.go) while bundles come in with nobody connected; then the
+// destination appears, a retry, a restart, the destination again.
+func scfFaultHist(r *Rng) []scfEv {
+	h := []scfEv{{Kind: "fault", Mode: 1 + r.Intn(3)}}
+	n := 2 + r.Intn(2)
+	for i := 0; i < n; i++ {
+		b := scfB{TsMode: r.Intn(2), Group: 1, Dst: 1, Local: 1}
+		if r.Intn(3) == 0 {
+			b.Dst = scfNoNode
+		}
+		if r.Bool() {
+			h = append(h, scfEv{Kind: "sub", B: b})
+		} else {
+			b.Local = 0
+			h = append(h, scfEv{Kind: "rcv", B: b, From: 2})
+		}
+	}
+	h = append(h, scfEv{Kind: "tickp"}, scfEv{Kind: "restart"}, scfEv{Kind: "up", Peer: 1, Mode: 2}, scfEv{Kind: "tickp"})
+	return h
+}
+
 func scfRandom(r *Rng, n int) []scfEv {
 	var h []scfEv
 	nb := 0
@@ -592,9 +975,17 @@ func scfRandom(r *Rng, n int) []scfEv {
 			if r.Intn(15) == 0 {
 				b.Local = 0
 			}
+			if r.Intn(8) == 0 {
+				scfRandBlk(r, &b)
+			}
 			h = append(h, scfEv{Kind: "sub", B: b})
 			// same-millisecond companions
 			for r.Intn(3) == 0 && len(h) < n {
+				if b.Dead == 1 && b.TsMode == 1 {
+					// (for the same reason the companions of an expired bundle would all get sequence number 0,
+					// i.e. one ID: a later duplicate of one of them could not be told from the others)
+					b.Group = 10 + len(h)
+				}
 				h = append(h, scfEv{Kind: "sub", B: b})
 				nb++
 			}
@@ -617,6 +1008,9 @@ func scfRandom(r *Rng, n int) []scfEv {
 			}
 			if r.Intn(12) == 0 {
 				b.Del = 1
+			}
+			if r.Intn(3) == 0 {
+				scfRandBlk(r, &b)
 			}
 			h = append(h, scfEv{Kind: "rcv", B: b, From: from})
 			nb++
@@ -711,6 +1105,31 @@ func genC05scf(o *Out, r *Rng, thorough bool) {
 	for i := 0; i < nrace; i++ {
 		for _, alg := range []string{"epidemic", "prophet", "sensor-mule"} {
 			jobs.add(alg, scfRaceHist(r, i%2 == 1), r.U64()%1000)
+		}
+	}
+	// 1b. received bundles with several blocks, known and unknown, with every combination of the block
+	// processing flags in every adjacent order (quick: half of the pairs that begin with a known block)
+	thin := r.Intn(2)
+	if thorough {
+		thin = -1
+	}
+	scfBlockHists(thin, func(alg string, h []scfEv) { jobs.add(alg, h, 0) })
+	// 1c. schedules: a failure report that is slower than the rest of the forwarding attempt; and one
+	// failing part-file write
+	nsched := 2
+	if thorough {
+		nsched = 12
+	}
+	for i := 0; i < nsched; i++ {
+		for _, alg := range []string{"epidemic", "prophet", "sensor-mule"} {
+			jobs.add(alg, scfSchedHist(r, 1), r.U64()%1000)
+			jobs.add(alg, scfSchedHist(r, 2), r.U64()%1000)
+		}
+		for _, alg := range []string{"spray", "binary_spray", "dtlsr"} {
+			jobs.add(alg, scfSchedHist(r, 2), r.U64()%1000)
+		}
+		for _, alg := range scfAlgs {
+			jobs.add(alg, scfFaultHist(r), 0)
 		}
 	}
 	// 2. bounded-exhaustive histories: every history up to the depth; in the quick tier the deepest
